@@ -11,5 +11,6 @@ pub mod l2_checks;
 pub mod macro_l2;
 pub mod model;
 pub mod props;
+pub mod regress;
 pub mod sched_checks;
 pub mod vals;
